@@ -87,6 +87,7 @@ MOUNTS = [
     ("vecdb", "variants/eager/mod.rs", "verif_eager", "kani/vecdb/eager.rs"),
     ("vecdb", "variants/raw/inner/read_write/mod.rs", "verif_raw", "kani/vecdb/raw_rw.rs"),
     ("vecdb", "variants/compressed/inner/pages.rs", "verif_pages", "kani/vecdb/pages.rs"),
+    ("vecdb", "variants/compressed/inner/read_write/mod.rs", "verif_comp", "kani/vecdb/comp_rw.rs"),
 ]
 
 FEATURES_VECDB = ["derive", "zerocopy"]
